@@ -17,6 +17,7 @@ mod c10;
 mod c14;
 mod c11;
 mod c13;
+mod c17;
 
 fn main() {
     let args: Vec<String> = std::env::args().collect();
@@ -46,6 +47,7 @@ fn main() {
         "C14" => c14::main(tier, seed, n),
         "C11" => c11::main(tier, seed, n),
         "C13" => c13::main(tier, seed, n),
+        "C17" => c17::main(tier, seed, n),
         p => { eprintln!("unknown property {}", p); std::process::exit(2); }
     }
 }
